@@ -6,10 +6,10 @@ from vlib.core import natlist
 OBLIGATIONS = dict(
     prop_file='Properties/C10.v',
     glue=[f'Glue/Pin_{n}.v' for n in ('pat_vq_forward', 'pat_vq_split', 'pat_vq_decode', 'pat_euclid_forward', 'pat_cosine_forward', 'pat_fsq_forward', 'pat_fsq_decode',
-                                      'pat_lfq_forward', 'pat_lfq_decode', 'pat_rvq_decode', 'pat_simvq_forward')] + ['Glue/EinopsGlueBase.v', 'Glue/EinopsGlueHeads.v', 'Glue/EinopsGlueLayout.v', 'Glue/EinopsGlueScalar.v'],
+                                      'pat_lfq_forward', 'pat_lfq_decode', 'pat_rvq_decode', 'pat_simvq_forward')] + ['Glue/EinopsGlueBase.v', 'Glue/EinopsGlueHeads.v', 'Glue/EinopsGlueLayout.v', 'Glue/EinopsGlueScalar.v', 'Glue/EinopsGlueMore.v'],
     extra=['Model/Layout.vo', 'Model/Forward.vo', 'Model/EinopsCheck.vo'],
     gen_items=['pat_vq_forward', 'pat_vq_split', 'pat_vq_decode', 'pat_euclid_forward', 'pat_cosine_forward', 'pat_fsq_forward', 'pat_fsq_decode', 'pat_lfq_forward',
-               'pat_lfq_decode', 'pat_rvq_decode', 'pat_simvq_forward', 'pr_vq', 'pr_scalar'],
+               'pat_lfq_decode', 'pat_rvq_decode', 'pat_simvq_forward', 'pr_vq', 'pr_scalar', 'pr_more'],
 )
 ASSUMPTIONS = [
     'einops / einx rearrange semantics = row-major grouped axes (the index maps of Model/Layout.v); compared with einops itself on index-labelled tensors for the patterns found at the anchored sites, on several extents per pattern',
@@ -32,9 +32,12 @@ def einops_cases(ctx, rng, failures):
     """the Coq einops interpreter (Model/Einops.v) against einops itself, on index-labelled tensors, for EVERY rearrange / repeat pattern
     the translator finds at the anchored sites (the same role tables Gen/pr_*.v that the glue lemmas consume)"""
     import torch, einops
-    from vlib.gen_items import VQ, FSQF, LFQF
+    from vlib.gen_items import VQ, FSQF, LFQF, RVQ, RFSQ, RLFQ, RSVQ, SIMVQ, LQ
     specs = [(VQ, 'VectorQuantize.forward'), (VQ, 'VectorQuantize.maybe_split_heads_from_input'), (VQ, 'VectorQuantize.get_codes_from_indices'),
-             (FSQF, 'FSQ.forward'), (FSQF, 'FSQ.indices_to_codes'), (LFQF, 'LFQ.forward'), (LFQF, 'LFQ.indices_to_codes')]
+             (FSQF, 'FSQ.forward'), (FSQF, 'FSQ.indices_to_codes'), (LFQF, 'LFQ.forward'), (LFQF, 'LFQ.indices_to_codes'),
+             (RVQ, 'ResidualVQ.get_codes_from_indices'), (RFSQ, 'ResidualFSQ.get_codes_from_indices'), (RFSQ, 'ResidualFSQ.forward'),
+             (RLFQ, 'ResidualLFQ.get_codes_from_indices'), (RSVQ, 'ResidualSimVQ.get_codes_from_indices'),
+             (SIMVQ, 'SimVQ.forward'), (SIMVQ, 'SimVQ.indices_to_codes'), (LQ, 'LatentQuantize.forward'), (LQ, 'LatentQuantize.indices_to_codes')]
     pats = []
     for fname, qual in specs:
         try:
